@@ -190,6 +190,29 @@ example : ∀ T ∈ cycEnv, extendsAfterText T.layout = true := by decide
 example : render cycEnv [] 3 0 = .error [.invalidOperation] := by decide
 example : render cycEnv [] 50 0 = .error [.invalidOperation] := by decide
 
+/-- rendering terminates on its own: for a core environment whose block names are below `B`,
+    nesting fuel of `|env| + B·(|env|+2) + |env| + 3` is never exhausted, whatever the template —
+    the result is the rendered output or a genuine error (cycle, missing template, `super()`
+    without parent, …), never the recursion limit.  Inheritance cycles included. -/
+theorem rendering_terminates (env : Env) (ctx : Frame) (hcore : CoreEnv env) (B : Nat)
+    (hB : ∀ T ∈ env, ∀ p ∈ T.blocks, p.1 < B) (main fuel : Nat)
+    (hfuel : env.length + (B * (env.length + 2) + (env.length + 1)) + 2 ≤ fuel) :
+    noRec (render env ctx fuel main) := by
+  rw [blocks_refine_spec env ctx fuel main hcore]
+  unfold specRender
+  cases hT : env[main]? with
+  | none => intro e he; cases he; simp
+  | some T =>
+    have hok : layoutOK T.layout = true := by
+      have := hcore T (List.mem_of_getElem? hT)
+      simp only [templateOK, Bool.and_eq_true] at this
+      exact this.1
+    exact specTemplate_noRec env hcore B hB fuel [main] T.layout (by simp) (by simp) (by simp)
+      (by simpa using hfuel) hok
+
+example : ∀ T ∈ exEnv, ∀ p ∈ T.blocks, p.1 < 2 := by decide
+example : ∀ T ∈ cycEnv, ∀ p ∈ T.blocks, p.1 < 1 := by decide
+
 /-- once a template has executed an `extends`, a further executed `extends` in the same template
     is an error, whatever stands in between and whatever its target is -/
 theorem double_extends_error (rd : Rd) (rec : Rec) (p mid post : List Item) (t : Nat)
